@@ -1,0 +1,154 @@
+// Verification-only stand-ins for std::collections::{HashMap, HashSet}, compiled only under
+// `cfg(kani)` (the Kani model checker; never set by cargo build/test).
+//
+// Fixed capacity (3 entries), no hashing, no allocation.  `values_mut()` walks the entries in the
+// order given by `set_iteration_order`, which the verification harness chooses
+// nondeterministically: that over-approximates every iteration order a real hash map can show.
+
+use std::fmt::Debug;
+
+pub(crate) const CAPACITY: usize = 3;
+
+#[derive(Debug)]
+pub(crate) struct HashMap<K, V> {
+    slots: [Option<(K, V)>; CAPACITY],
+    order: [u8; CAPACITY],
+}
+
+impl<K, V> Default for HashMap<K, V> {
+    fn default() -> Self {
+        Self {
+            slots: [None, None, None],
+            order: [0, 1, 2],
+        }
+    }
+}
+
+impl<K: Eq + Copy + Debug, V: Debug> HashMap<K, V> {
+    fn position(&self, k: &K) -> Option<usize> {
+        let mut i = 0;
+        while i < CAPACITY {
+            if let Some((key, _)) = &self.slots[i] {
+                if key == k {
+                    return Some(i);
+                }
+            }
+            i += 1;
+        }
+        None
+    }
+
+    pub(crate) fn contains_key(&self, k: &K) -> bool {
+        self.position(k).is_some()
+    }
+
+    pub(crate) fn get(&self, k: &K) -> Option<&V> {
+        match self.position(k) {
+            Some(i) => self.slots[i].as_ref().map(|e| &e.1),
+            None => None,
+        }
+    }
+
+    pub(crate) fn get_mut(&mut self, k: &K) -> Option<&mut V> {
+        match self.position(k) {
+            Some(i) => self.slots[i].as_mut().map(|e| &mut e.1),
+            None => None,
+        }
+    }
+
+    pub(crate) fn insert(&mut self, k: K, v: V) -> Option<V> {
+        if let Some(i) = self.position(&k) {
+            return self.slots[i].replace((k, v)).map(|e| e.1);
+        }
+        let mut i = 0;
+        while i < CAPACITY {
+            if self.slots[i].is_none() {
+                self.slots[i] = Some((k, v));
+                return None;
+            }
+            i += 1;
+        }
+        panic!("verification map model: capacity exceeded");
+    }
+
+    pub(crate) fn remove(&mut self, k: &K) -> Option<V> {
+        match self.position(k) {
+            Some(i) => self.slots[i].take().map(|e| e.1),
+            None => None,
+        }
+    }
+
+    pub(crate) fn len(&self) -> usize {
+        self.slots.iter().filter(|s| s.is_some()).count()
+    }
+
+    /// direct access to a slot of the model (constant index, no search)
+    pub(crate) fn slot(&self, i: usize) -> Option<(&K, &V)> {
+        self.slots[i].as_ref().map(|e| (&e.0, &e.1))
+    }
+
+    /// `order` must be a permutation of 0..CAPACITY
+    pub(crate) fn set_iteration_order(&mut self, order: [u8; CAPACITY]) {
+        self.order = order;
+    }
+
+    pub(crate) fn values_mut(&mut self) -> impl Iterator<Item = &mut V> {
+        let order = self.order;
+        let [a, b, c] = &mut self.slots;
+        let mut refs: [Option<&mut V>; CAPACITY] = [
+            a.as_mut().map(|e| &mut e.1),
+            b.as_mut().map(|e| &mut e.1),
+            c.as_mut().map(|e| &mut e.1),
+        ];
+        let mut out: [Option<&mut V>; CAPACITY] = [None, None, None];
+        let mut i = 0;
+        while i < CAPACITY {
+            out[i] = refs[order[i] as usize % CAPACITY].take();
+            i += 1;
+        }
+        out.into_iter().flatten()
+    }
+}
+
+#[derive(Debug)]
+pub(crate) struct HashSet<T> {
+    items: [Option<T>; CAPACITY],
+}
+
+impl<T> Default for HashSet<T> {
+    fn default() -> Self {
+        Self {
+            items: [None, None, None],
+        }
+    }
+}
+
+impl<T: Eq + Debug> HashSet<T> {
+    pub(crate) fn contains(&self, v: &T) -> bool {
+        let mut i = 0;
+        while i < CAPACITY {
+            if let Some(x) = &self.items[i] {
+                if x == v {
+                    return true;
+                }
+            }
+            i += 1;
+        }
+        false
+    }
+
+    pub(crate) fn insert(&mut self, v: T) -> bool {
+        if self.contains(&v) {
+            return false;
+        }
+        let mut i = 0;
+        while i < CAPACITY {
+            if self.items[i].is_none() {
+                self.items[i] = Some(v);
+                return true;
+            }
+            i += 1;
+        }
+        panic!("verification set model: capacity exceeded");
+    }
+}
